@@ -13,23 +13,31 @@ RULE = ('exhaustive matrices over {-1,0,1}: all 1x1, 2x2, 2x3 (+ every right-han
         'shape mismatches, p not prime / entries outside [0,p)) that is compared with the model only. '
         'non-trivial = n >= 2 and not the all-zero matrix')
 PROVED = [
-    'determinant_spec [P]: every value returned by determinant is the Leibniz determinant (MathComp \\det) of the matrix; determinant_returns [P]: it returns on every square matrix',
-    'inv_spec [P]: Ok b -> b*a = 1 and a*b = 1; inv_err_spec [P]: Err -> det a = 0; inv_nonsingular / inv_singular_spec [P]: on square input, Ok iff det != 0, Err iff det = 0, never a panic',
-    'solve_spec [P]: Ok x -> x*a = b (the orientation the code uses: column operations); solve_err_spec [P]: Err -> det a = 0; solve_nonsingular [P]: square, det != 0 -> Ok',
-    'mul_inv_from_right_exact_spec [P]: Ok c -> c*b = a over Z; mul_inv_from_right_exact_err [P]: Err -> det b = 0',
+    'determinant_spec [P]: every value returned by determinant is the Leibniz determinant (MathComp \\det); determinant_returns [P]: it returns on every square matrix',
+    'inv_spec [P]: Ok b -> b*a = 1 and a*b = 1; inv_err_spec [P]: Err -> det a = 0; inv_nonsingular / inv_singular_spec [P]: on square input Ok iff det != 0, Err iff det = 0, never a panic',
+    'solve_spec [P]: Ok x -> x*a = b (the orientation the code uses: column operations); solve_err_spec [P]: Err -> det a = 0; '
+    'solve_nonsingular / solve_singular_spec [P]: on square input Ok iff det != 0, Err iff det = 0, never a panic',
+    'mul_inv_from_right_exact_spec [P]: Ok c -> c*b = a over Z; _err [P]: Err -> det b = 0; _complete [P]: square input, singular b -> Err, '
+    'non-singular b and an integer quotient exists -> Ok',
+    'iim_spec [P]: Ok x -> x*M = V and rows of M independent; Err LinearlyDependent -> rows dependent; Err NotInImage -> rows independent and no X with X*M = V; '
+    'iim_complete_spec [P]: on rectangular input it returns (no panic) and picks exactly the variant the mathematics dictates',
+    'supplement_spec [P]: Ok B -> B has n rows, first k rows = input, det B != 0, input rows independent; Err -> input rows dependent; '
+    'supplement_complete_spec [P]: on rectangular input no panic, Ok iff rank k',
+    'image_mod_p_spec [P]: p prime, entries in [0,p): output rows are input rows, independent mod p, and span the same space mod p as the input (MathComp row_free / :=: over F_p); '
+    'image_mod_p_returns [P]: no panic (index, division, its own assert_eq) on any rectangular matrix with >= 1 row and modulus != 0',
 ]
 NOT_PROVED = [
-    'iim_spec, supplement_spec, image_mod_p_spec (checked by the independent oracles on every explored input)',
-    'mul_inv_from_right_exact returns Ok whenever an integer quotient exists (oracle only)',
+    'behaviour on ragged / empty / non-reduced / non-prime input is outside the property; the model reproduces it and is compared with the code on a malformed stream',
 ]
 
 CLAIM = dict(
-    technique='Coq proof about the Gallina model of the seven routines (generic over a MathComp fieldType, instantiated at Qc) + extracted-model-vs-implementation correspondence',
-    text='coq/Props/C18.v: for all rational matrices (no size bound) determinant = Leibniz determinant; inv/solve return the exact inverse/solution (x*A = b) or Err, '
-         'Err exactly when det = 0, and never panic on square input; exact right division returns C with C*B = A. The model (coq/Model/LinAlg.v) reproduces the routines '
-         'statement by statement including Rust bounds-check panics on ragged input; it is tied to /repo by running the extracted model and impl_svc on the same inputs.',
-    note='iim / supplement_basis / image_mod_p: model + correspondence + independent Fraction oracles on every explored input, no theorem yet; '
-         'BigRational arithmetic is taken as Qc, BigInt as Z',
+    technique='Coq proof about the Gallina model of the seven routines (generic over a MathComp fieldType, instantiated at Qc; image_mod_p over F_p) + extracted-model-vs-implementation correspondence',
+    text='coq/Props/C18.v, all inputs, no size bound: determinant = Leibniz determinant; inv / solve (x*A = b) return the exact inverse / solution or Err, Err exactly when det = 0, never a panic on '
+         'square input; iim returns X with X*M = V or the correct error variant, supplement_basis an invertible completion or Err iff rank < k, both total on rectangular input; '
+         'image_mod_p returns input rows forming a basis mod p of the row space; exact right division returns C with C*B = A whenever an integer C exists. '
+         'The model (coq/Model/LinAlg.v) reproduces the routines statement by statement including Rust bounds-check panics on ragged input; it is tied to /repo by running the extracted model and impl_svc on the same inputs.',
+    note='BigRational arithmetic is taken as Qc, BigInt as Z (num crates trusted); image_mod_p needs the entries reduced to [0,p) (the code tests entries for exact zero); '
+         'the independent Fraction / mod-p oracles are kept for failing-input search',
     ref='DESIGN.md section 4, C18')
 
 # ---------------------------------------------------------------- exact reference linear algebra (independent of the model)
@@ -296,15 +304,15 @@ def c_det(A, tag): return Case('la_det', line('la_det', A), oracle=o_det(A), non
 def c_inv(A, tag): return Case('la_inv', line('la_inv', A), oracle=o_inv(A), nontrivial=nz(A), tag=tag)
 def c_solve(A, b, tag): return Case('la_solve', line('la_solve', A, b), oracle=o_solve(A, b), nontrivial=nz(A), tag=tag)
 def c_iim(M, V, tag):
-    return Case('la_iim', line('la_iim', M, V), oracle=o_iim(M, V), nontrivial=len(M[0]) >= 2, tag=tag + ':' + iim_expect(M, V), always_oracle=True)
+    return Case('la_iim', line('la_iim', M, V), oracle=o_iim(M, V), nontrivial=len(M[0]) >= 2, tag=tag + ':' + iim_expect(M, V))
 def c_supp(M, tag):
     return Case('la_supp', line('la_supp', M), oracle=o_supp(M), nontrivial=len(M[0]) >= 2,
-                tag=tag + (':full' if rank_q(M) == len(M) else ':deficient'), always_oracle=True)
+                tag=tag + (':full' if rank_q(M) == len(M) else ':deficient'))
 def c_image(M, p, tag):
     rk = rank_p(M, p)
     return Case('la_image', line('la_image', M, p), oracle=o_image(M, p), nontrivial=len(M[0]) >= 2 and rk >= 1,
-                tag='%s:p=%d:%s' % (tag, p, 'full' if rk == min(len(M), len(M[0])) else 'deficient'), always_oracle=True)
-def c_mulinv(A, B, tag): return Case('la_mulinv', line('la_mulinv', A, B), oracle=o_mulinv(A, B), nontrivial=len(A) >= 2, tag=tag, always_oracle=True)
+                tag='%s:p=%d:%s' % (tag, p, 'full' if rk == min(len(M), len(M[0])) else 'deficient'))
+def c_mulinv(A, B, tag): return Case('la_mulinv', line('la_mulinv', A, B), oracle=o_mulinv(A, B), nontrivial=len(A) >= 2, tag=tag)
 
 def all_mats(n, m, vals=(-1, 0, 1)):
     for t in itertools.product(vals, repeat=n * m):
